@@ -1,8 +1,111 @@
 /-
-C05 — property theorems (stub; see DESIGN.md §6).
+C05 — Labels, cluster count and per-category counters stay mutually consistent.
+
+`Consistent s` (ArtProofs/Fit.lean) says, for the observable state `s` of a
+BaseART-derived estimator using the generic search:
+  * `cnt_len`   one counter per stored category (`n_clusters = |W| = |cnt|`),
+  * `labels_lt` every label indexes an existing category,
+  * `cnt_hist`  per-category counters equal the label histogram,
+  * `n_eq`      the sample counter equals the number of labels,
+  * `all_used`  no category is empty,
+  * `ordered`   categories are numbered in order of creation.
+It holds after every sequence of single-epoch `fit` / `partial_fit` calls with
+any batch sizes, for every kernel, mode, epsilon and (stateful) reset function.
 -/
-import ArtModel.Basic
+import ArtProofs.Fit
 
 namespace Art.C05
+
+section Defs
+variable {X Wt α μ θ : Type} [LT α] [DecidableRel (α := α) (· < ·)]
+
+/-- a training call: `fit` or `partial_fit` on a batch -/
+inductive Call (X : Type) where
+  | fit (xs : List X)
+  | pfit (xs : List X)
+
+def Call.size : Call X → Nat
+  | .fit xs => xs.length
+  | .pfit xs => xs.length
+
+def runCall (K : Kernel X Wt α μ) (cfg : SearchCfg μ θ) (th0 : θ)
+    (veto : ArtState Wt → X → Nat → Bool) (s : ArtState Wt) : Call X → ArtState Wt
+  | .fit xs => fit K cfg th0 veto s xs
+  | .pfit xs => partialFit K cfg th0 veto s xs
+
+def runHistory (K : Kernel X Wt α μ) (cfg : SearchCfg μ θ) (th0 : θ)
+    (veto : ArtState Wt → X → Nat → Bool) (calls : List (Call X)) : ArtState Wt :=
+  calls.foldl (runCall K cfg th0 veto) {}
+
+/-- samples presented since the last `fit` -/
+def sinceLastFit (calls : List (Call X)) : Nat :=
+  calls.foldl (fun acc c => match c with
+    | .fit xs => xs.length
+    | .pfit xs => acc + xs.length) 0
+
+end Defs
+
+variable {X Wt α μ θ : Type} [LinearOrder α]
+
+/-- **Main invariant**: every reachable state is consistent. -/
+theorem history_consistent (K : Kernel X Wt α μ) (cfg : SearchCfg μ θ) (th0 : θ)
+    (veto : ArtState Wt → X → Nat → Bool) (calls : List (Call X)) :
+    Consistent (runHistory K cfg th0 veto calls) := by
+  unfold runHistory
+  suffices h : ∀ s : ArtState Wt, Consistent s →
+      Consistent (calls.foldl (runCall K cfg th0 veto) s) from h {} consistent_empty
+  induction calls with
+  | nil => intro s hs; simpa
+  | cons c cs ih =>
+    intro s hs
+    apply ih
+    cases c with
+    | fit xs => exact fit_consistent K cfg th0 veto s xs
+    | pfit xs => exact partialFit_consistent K cfg th0 veto s xs hs
+
+/-- `labels_` has one entry per sample presented by the call, on top of what was there
+(`partial_fit`), or exactly the batch size (`fit`). -/
+theorem labels_length (K : Kernel X Wt α μ) (cfg : SearchCfg μ θ) (th0 : θ)
+    (veto : ArtState Wt → X → Nat → Bool) (s : ArtState Wt) (xs : List X) :
+    (partialFit K cfg th0 veto s xs).labels.length = s.labels.length + xs.length ∧
+    (fit K cfg th0 veto s xs).labels.length = xs.length := by
+  refine ⟨partialFit_labels_length K cfg th0 veto s xs, ?_⟩
+  have := partialFit_labels_length K cfg th0 veto ({} : ArtState Wt) xs
+  simpa [fit] using this
+
+/-- `labels_` has exactly one entry per sample presented since the last `fit`. -/
+theorem labels_since_last_fit (K : Kernel X Wt α μ) (cfg : SearchCfg μ θ) (th0 : θ)
+    (veto : ArtState Wt → X → Nat → Bool) (calls : List (Call X)) :
+    (runHistory K cfg th0 veto calls).labels.length = sinceLastFit calls := by
+  unfold runHistory sinceLastFit
+  suffices h : ∀ (s : ArtState Wt) (acc : Nat), s.labels.length = acc →
+      (calls.foldl (runCall K cfg th0 veto) s).labels.length =
+        calls.foldl (fun acc c => match c with
+          | .fit xs => xs.length
+          | .pfit xs => acc + xs.length) acc from h {} 0 rfl
+  induction calls with
+  | nil => intro s acc h; simpa using h
+  | cons c cs ih =>
+    intro s acc h
+    simp only [List.foldl_cons]
+    apply ih
+    cases c with
+    | fit xs => exact (labels_length K cfg th0 veto s xs).2
+    | pfit xs => rw [← h]; exact (labels_length K cfg th0 veto s xs).1
+
+/-- the counters' total equals the number of samples presented since the last fit -/
+theorem counters_total (s : ArtState Wt) (h : Consistent s) :
+    s.n = s.labels.length ∧ ∀ k, k < s.W.length → s.cnt.getD k 0 = s.labels.count k :=
+  ⟨h.n_eq, h.cnt_hist⟩
+
+/-! Non-vacuity: a concrete history over `Int` activations (three samples, two categories). -/
+private def K0 : Kernel Int Int Int Int :=
+  { choice := fun _ x w => some (-(x - w).natAbs), matchv := fun x w => -(x - w).natAbs,
+    update := fun _ w => w, newW := fun x => x }
+private def cfg0 : SearchCfg Int Int := scalarCfg .plus false (· + 1) (· - 1) 1000
+
+example : (runHistory K0 cfg0 (-2) noVeto [.fit [0, 10, 1], .pfit [11]]).labels = [0, 1, 0, 1] := by decide
+example : (runHistory K0 cfg0 (-2) noVeto [.fit [0, 10, 1], .pfit [11]]).cnt = [2, 2] := by decide
+example : (runHistory K0 cfg0 (-2) noVeto [.fit [0, 10, 1], .fit [5]]).cnt = [1] := by decide
 
 end Art.C05
